@@ -14,22 +14,30 @@ REQUIRED = ['C13.isGood_spec', 'C13.cv_good_iff', 'C13.good_same_partition', 'C1
 TRUSTED = ['the float constant 2*pi - phase_edge is computed by the harness with the documented expression and handed to the model exactly',
            'wrap_phase (x % 2pi) is an oracle for phases above 2pi']
 ASSUMPTIONS = ['masks are boolean arrays (the documented type)']
-EDGES = [None, 0.05, 1.0, np.pi / 2]
-RULE = ('exhaustive: every phase sequence of length <= L (5 quick / 6 thorough) over the alphabet %s x phase_edge in %s x masks '
-        '{none, all valid, one invalid sample at each position}; random: synthetic phases x random edge in (0, pi/2] x masks '
-        '{none, random, block}; container: Cycles(phase, phase_edge=e, phase_step=s).metrics[is_good]; direct is_good calls. '
-        'Non-trivial: the series contains a wrap and at least one segment passes and one fails the criteria.' % (_cyc.ALPHABET, EDGES))
+# no alphabet value lies exactly at a tolerance bound (review C finding 7: 1.0 used to tie with the alphabet's 1.0; 1.05 keeps
+# "start 1.0 is inside the tolerance", 0.95 (thorough) "start 1.0 is outside")
+EDGES = [None, 0.05, 1.05, np.pi / 2, 0.95]
+RULE = ('exhaustive: every phase sequence of length <= L (5 quick / 6 thorough) over the alphabet %s x phase_edge in %s (the last one '
+        'thorough only) x masks {none, all valid, one invalid sample at each position}, the mask handed over by keyword, as the documented '
+        'third positional argument, with every argument positional, or through the get_cycle_inds alias; random: synthetic phases x random '
+        'edge in (0, pi/2] x masks {none, random, block} x the same four calling conventions; container: '
+        'Cycles(phase, phase_edge=e, phase_step=s, use_cache=c, mode in {default, cycle, augmented}, compute_timings=t).metrics[is_good]; '
+        'direct is_good calls (mechanism-level). A segment whose verdict hinges on a value lying exactly AT a tolerance bound (start == '
+        'phase_edge or 0, end == 2pi - phase_edge) is neither judged nor compared (tag not-judged:value-at-tolerance-bound): "within the '
+        'edge tolerance" does not say whether the bound itself counts. Non-trivial: the series contains a wrap and at least one segment '
+        'passes and one fails the criteria.' % (_cyc.ALPHABET, EDGES))
 
 
 def expected_labels(col, step, edge, mask, good=True):
-    """The property's own words: segment labelled iff criteria hold and nothing masked; ranks in order."""
+    """The property's own words: segment labelled iff criteria hold and nothing masked; ranks in order (segments whose verdict
+    hinges on a value exactly at a tolerance bound count as good here; good_failures does not judge them)."""
     n = len(col)
     labels = [-1] * n
     k = 0
     for a, b in _cyc.segments_of(col, step):
         ok = all(mask[a:b]) if mask is not None else True
         if ok and good:
-            ok = _cyc.good_oracle(col[a:b], edge)
+            ok = _cyc.good_oracle(col[a:b], edge) is not False
         if ok:
             for i in range(a, b):
                 labels[i] = k
@@ -38,24 +46,45 @@ def expected_labels(col, step, edge, mask, good=True):
 
 
 def good_failures(col, labels, step, edge, mask, prefix=''):
-    exp = expected_labels(col, step, edge, mask)
-    if exp == list(labels):
-        return []
+    """C13's words, segment by segment: a wrap-delimited segment is labelled iff it meets the criteria and holds no masked sample;
+    the labelled segments are numbered 0, 1, 2, ... in temporal order. A segment whose verdict hinges on a value lying exactly at a
+    tolerance bound (good_oracle -> None) may go either way."""
+    labels = [int(v) for v in labels]
+    if len(labels) != len(col):
+        return [Failure(prefix + 'wrong-length', '%d labels for %d samples' % (len(labels), len(col)))]
     fs = []
     segs = _cyc.segments_of(col, step)
+    rank = 0
+    order_ok = True
     for a, b in segs:
         lab = set(labels[a:b])
-        should = exp[a] != -1
-        if lab == {-1} and should:
-            fs.append(Failure(prefix + 'good-cycle-dropped', 'segment [%d,%d) meets all criteria but is unlabelled' % (a, b)))
-            break
-        if lab != {-1} and not should:
-            why = 'masked' if (mask is not None and not all(mask[a:b])) else 'fails criteria'
+        masked = mask is not None and not all(mask[a:b])
+        should = False if masked else _cyc.good_oracle(col[a:b], edge)
+        if lab == {-1}:
+            if should is True and not fs:
+                fs.append(Failure(prefix + 'good-cycle-dropped', 'segment [%d,%d) meets all criteria but is unlabelled' % (a, b)))
+            continue
+        if should is False and not fs:
+            why = 'masked' if masked else 'fails criteria'
             fs.append(Failure(prefix + 'bad-cycle-labelled:' + why, 'segment [%d,%d) %s but is labelled %s' % (a, b, why, sorted(lab))))
-            break
-    if not fs:
-        fs.append(Failure(prefix + 'good-labels-not-rank-order', 'expected %s got %s' % (exp[:30], list(labels)[:30])))
+        if lab != {rank}:
+            order_ok = False
+        rank += 1
+    if not segs and any(l != -1 for l in labels):
+        order_ok = False
+    if not fs and not order_ok:
+        fs.append(Failure(prefix + 'good-labels-not-rank-order', 'labelled segments are not numbered 0,1,2,... in order: %s' % (labels[:40],)))
     return fs
+
+
+def guarded(holds):
+    """an exception inside the instance check itself is a harness fault, not a property failure"""
+    def wrapper(self, case, out):
+        try:
+            return holds(self, case, out)
+        except Exception as e:  # noqa
+            return [Failure('instance-check-crashed', repr(e), literal=False)]
+    return wrapper
 
 
 class GoodExhaustive(Stream):
@@ -66,8 +95,9 @@ class GoodExhaustive(Stream):
         L = 6 if tier == 'thorough' else 5
         for length in range(1, L + 1):
             for p in range(5):
-                for ei in range(len(EDGES)):
-                    yield {'len': length, 'prefix': [p], 'edge': ei}
+                for ei in range(len(EDGES) if tier == 'thorough' else 4):
+                    # the mask is the documented THIRD argument: half of the blocks hand it over positionally / through the alias
+                    yield {'len': length, 'prefix': [p], 'edge': ei, 'call': ('kw', 'pos', 'kw', 'alias', 'kw', 'posall')[(length + p + ei) % 6]}
 
     def _variants(self, case):
         for seq in _cyc.enum_block(case['len'], case['prefix']):
@@ -84,7 +114,7 @@ class GoodExhaustive(Stream):
         edge = EDGES[case['edge']]
         for seq, mask in self._variants(case):
             try:
-                cv = _cyc.call_cv(seq, 1, mask, None, edge)
+                cv = _cyc.call_cv(seq, 1, mask, None, edge, call=case.get('call', 'kw'))
                 outs.append([int(v) for v in cv[:, 0]])
             except Exception as e:  # noqa
                 outs.append({'error': type(e).__name__})
@@ -100,13 +130,17 @@ class GoodExhaustive(Stream):
         for (seq, mask), o, r in zip(self._variants(case), out, results):
             if isinstance(o, dict):
                 return 'implementation raised %s on phase=%s mask=%s' % (o['error'], seq, mask)
+            if _cyc.has_boundary_tie(seq, _cyc.DEFAULT_STEP, EDGES[case['edge']] or _cyc.DEFAULT_EDGE):
+                continue            # a value exactly at a tolerance bound: the property leaves the verdict open
             if not r.ok or [int(v) for v in (r.vecs[0] or [])] != o:
                 return 'phase=%s mask=%s edge=%s impl=%s model=%s' % (seq, mask, EDGES[case['edge']], o, r.raw)
         return None
 
+    @guarded
     def holds(self, case, out):
         if isinstance(out, ImplError):
-            return [Failure('raises:' + out['error'], out['msg'])]
+            # the whole block failed (time-out / harness fault): reported by compare, not a C13 verdict
+            return [Failure('raises:' + out['error'], out['msg'], literal=False)]
         edge = EDGES[case['edge']] or _cyc.DEFAULT_EDGE
         fs = {}
         for (seq, mask), o in zip(self._variants(case), out):
@@ -115,12 +149,12 @@ class GoodExhaustive(Stream):
                 fs.setdefault(k, Failure(k, 'phase=%s mask=%s' % (seq, mask)))
                 continue
             for f in good_failures(seq, o, _cyc.DEFAULT_STEP, edge, mask):
-                f.detail = 'phase=%s mask=%s edge=%s labels=%s: %s' % (seq, mask, edge, o, f.detail)
+                f.detail = 'phase=%s mask=%s edge=%s call=%s labels=%s: %s' % (seq, mask, edge, case.get('call', 'kw'), o, f.detail)
                 fs.setdefault(f.kind, f)
         return list(fs.values())
 
     def tags(self, case, out):
-        return ['len=%d' % case['len'], 'edge=%s' % EDGES[case['edge']]]
+        return ['len=%d' % case['len'], 'edge=%s' % EDGES[case['edge']], 'call=' + case.get('call', 'kw')]
 
     def nontrivial(self, case, out):
         if isinstance(out, ImplError):
@@ -137,6 +171,12 @@ class GoodRandom(Stream):
             {'phase': [[0.1, 3.1, 6.2, 0.1, 3.1, 6.2, 0.1, 3.1, 6.2]], 'edge': None, 'step': None, 'mask': [[1, 1, 1, 1, 0, 1, 1, 1, 1]]},
             {'phase': [[0.1, 3.1, 6.2, 0.1, 3.1, 6.2, 0.1, 3.1, 6.2]], 'edge': 0.05, 'step': None, 'mask': None},
             {'phase': [[0.1, 3.1, 6.2, 0.1, 3.1, 3.0, 6.2, 0.1, 6.2]], 'edge': 1.0, 'step': None, 'mask': None},
+            # round-2 seed C13-4: steps inside a cycle between pi and phase_step
+            {'phase': [[0.1, 3.5, 6.2, 0.1, 3.5, 6.2, 0.2, 3.0, 6.1]], 'edge': None, 'step': None, 'mask': None},
+            # round 3, C13 patch 2 (signature reordered: a mask given as the documented third positional argument was bound to `imf`)
+            {'phase': [[0.1, 3.1, 6.2, 0.1, 3.1, 6.2, 0.1, 3.1, 6.2]], 'edge': None, 'step': None, 'mask': [[1, 1, 1, 1, 0, 1, 1, 1, 1]], 'call': 'pos'},
+            {'phase': [[0.1, 3.1, 6.2, 0.1, 3.1, 6.2, 0.1, 3.1, 6.2]], 'edge': None, 'step': None, 'mask': [[1, 1, 1, 1, 1, 1, 1, 1, 0]], 'call': 'alias'},
+            {'phase': [[0.1, 3.1, 6.2, 0.1, 3.1, 6.2, 0.1, 3.1, 6.2]], 'edge': 0.3, 'step': 4.0, 'mask': [[0, 1, 1, 1, 1, 1, 1, 1, 1]], 'call': 'posall'},
         ]
 
     def generate(self, rng, tier):
@@ -144,6 +184,9 @@ class GoodRandom(Stream):
         for i in range(n_cases):
             n = rng.choice([5, 17, 64, 200, 500]) if rng.random() < 0.7 else rng.randint(2, 900)
             col = _cyc.synth_phase(rng, n, reversing=rng.random() < 0.5)
+            if rng.random() < 0.15:
+                col = _cyc.fast_phase(rng, rng.randint(2, 12))
+                n = len(col)
             mk = rng.choice(['none', 'random', 'block'])
             if mk == 'none':
                 mask = None
@@ -154,41 +197,57 @@ class GoodRandom(Stream):
                 b = min(n, a + rng.randint(1, max(1, n // 4)))
                 mask = [[0 if a <= j < b else 1 for j in range(n)]]
             edge = rng.choice([None, rng.uniform(0.01, np.pi / 2), np.pi / 2, 0.3])
-            yield {'phase': [col], 'edge': edge, 'step': rng.choice([None, None, np.pi, 4.0]), 'mask': mask}
+            yield {'phase': [col], 'edge': edge, 'step': rng.choice([None, None, np.pi, 4.0]), 'mask': mask,
+                   'call': rng.choice(['kw', 'kw', 'pos', 'pos', 'posall', 'alias'])}
 
     def impl(self, case):
         arr = np.array(case['phase'], dtype=float).T[:, 0]
         mask = None if case['mask'] is None else np.array(case['mask'], dtype=bool).T[:, 0]
-        cv = _cyc.call_cv(arr, 1, mask, case.get('step'), case.get('edge'))
-        return [int(v) for v in cv[:, 0]]
+        cv = _cyc.call_cv(arr, 1, mask, case.get('step'), case.get('edge'), call=case.get('call', 'kw'))
+        out = {'good': [int(v) for v in cv[:, 0]]}
+        try:     # the all-cycles partition of the same phase (C12's subject; here only the reference of "subset renumbering")
+            out['all'] = [int(v) for v in _cyc.call_cv(arr, 0, None, case.get('step'), case.get('edge'))[:, 0]]
+        except Exception as e:  # noqa
+            out['all'] = {'error': type(e).__name__}
+        return out
 
     def ops(self, case, out):
-        step = case.get('step') or _cyc.DEFAULT_STEP
-        edge = case.get('edge') or _cyc.DEFAULT_EDGE
         mask = None if case['mask'] is None else case['mask'][0]
-        return [_cyc.cv_op(case['phase'][0], step, 1, edge, mask)]
+        return [_cyc.cv_op(case['phase'][0], _cyc.step_of(case), 1, _cyc.edge_of(case), mask)]
+
+    def _tie(self, case):
+        col, step = case['phase'][0], _cyc.step_of(case)
+        if step != 0 and _cyc.tie_margin(col, step) < 1e-9:
+            return 'near-tie'
+        if _cyc.has_boundary_tie(col, step, _cyc.edge_of(case)):
+            return 'value-at-tolerance-bound'
+        return None
 
     def compare(self, case, out, results):
-        step = case.get('step') or _cyc.DEFAULT_STEP
-        if _cyc.tie_margin(case['phase'][0], step) < 1e-9:
-            return 'skip:near-tie'
+        if self._tie(case):
+            return 'skip:' + self._tie(case)
         if isinstance(out, ImplError):
             return 'implementation raised %s' % out['error']
         r = results[0]
-        if not r.ok or [int(v) for v in (r.vecs[0] or [])] != out:
-            return 'impl=%s model=%s' % (out[:40], r.raw[:200])
+        if not r.ok or [int(v) for v in (r.vecs[0] or [])] != out['good']:
+            return 'impl=%s model=%s' % (out['good'][:40], r.raw[:200])
         return None
 
+    @guarded
     def holds(self, case, out):
         if isinstance(out, ImplError):
-            return [Failure('raises:' + out['error'], out['msg'])]
-        step = case.get('step') or _cyc.DEFAULT_STEP
-        edge = case.get('edge') or _cyc.DEFAULT_EDGE
+            return [Failure('raises:' + out['error'], out['msg'], literal=out['error'] != 'Timeout')]
+        step, edge = _cyc.step_of(case), _cyc.edge_of(case)
+        if step != 0 and _cyc.tie_margin(case['phase'][0], step) < 1e-9:
+            return []
         mask = None if case['mask'] is None else case['mask'][0]
-        fs = good_failures(case['phase'][0], out, step, edge, mask)
+        fs = good_failures(case['phase'][0], out['good'], step, edge, mask)
+        for f in fs:
+            f.detail = 'call=%s: %s' % (case.get('call', 'kw'), f.detail)
         # order-preserving renumbering of a subset of the all-cycles partition
-        allcv = _cyc.call_cv(case['phase'][0], 0, None, case.get('step'), case.get('edge'))[:, 0]
-        pairs = sorted(set((int(g), int(a)) for g, a in zip(out, allcv) if g >= 0))
+        if isinstance(out['all'], dict):
+            return fs      # the all-cycles call failed: C12's subject, nothing to relate the good labels to
+        pairs = sorted(set((int(g), int(a)) for g, a in zip(out['good'], out['all']) if g >= 0))
         if any(a < 0 for _, a in pairs) or [g for g, _ in pairs] != list(range(len(pairs))) \
                 or [a for _, a in pairs] != sorted(set(a for _, a in pairs)) or len(set(a for _, a in pairs)) != len(pairs):
             fs.append(Failure('good-not-subset-renumbering', 'good->all label pairs %s' % pairs[:20]))
@@ -196,14 +255,16 @@ class GoodRandom(Stream):
 
     def tags(self, case, out):
         t = ['mask=%s' % ('none' if case['mask'] is None else 'some-invalid' if 0 in case['mask'][0] else 'all-valid'),
-             'edge=%s' % ('default' if case['edge'] is None else 'custom')]
+             'edge=%s' % ('default' if case['edge'] is None else 'custom'), 'call=' + case.get('call', 'kw')]
+        if self._tie(case):
+            t.append('not-judged:' + self._tie(case))
         if not isinstance(out, ImplError):
-            k = max(out) + 1 if out else 0
+            k = max(out['good']) + 1 if out['good'] else 0
             t.append('good=0' if k == 0 else 'good=1-3' if k <= 3 else 'good>3')
         return t
 
     def nontrivial(self, case, out):
-        return not isinstance(out, ImplError) and (-1 in out) and max(out) >= 0
+        return not isinstance(out, ImplError) and (-1 in out['good']) and max(out['good']) >= 0
 
     def shrink(self, case):
         n = len(case['phase'][0])
@@ -247,25 +308,40 @@ class IsGoodDirect(Stream):
     def compare(self, case, out, results):
         if isinstance(out, ImplError):
             return 'implementation raised %s' % out['error']
+        edge = case['edge'] or _cyc.DEFAULT_EDGE
         r = results[0]
-        if not r.ok or [int(v) for v in r.vecs[0]] != out['checks']:
+        if not r.ok:
+            return 'seg=%s model=%s' % (case['seg'], r.raw)
+        model = [int(v) for v in r.vecs[0]]
+        if _cyc.good_oracle(case['seg'], edge) is None:
+            # a value exactly at a tolerance bound: only the verdict-independent part (monotonicity) is compared
+            return None if model[:1] == out['checks'][:1] else 'seg=%s impl=%s model=%s' % (case['seg'], out, r.raw)
+        if model != out['checks']:
             return 'seg=%s impl=%s model=%s' % (case['seg'], out, r.raw)
         return None
 
+    @guarded
     def holds(self, case, out):
+        # C13 speaks about the wrap-delimited segments get_cycle_vector labels and the container's flag; direct calls of the helper
+        # is_good - on arbitrary sequences, including the value 2pi and sequences with an internal wrap - are the anchored MECHANISM:
+        # every verdict of this stream is mechanism-level (a broken correspondence, never a replay of the property)
         if isinstance(out, ImplError):
-            return [Failure('is_good-raises:' + out['error'], out['msg'])]
+            return [Failure('is_good-raises:' + out['error'], out['msg'], literal=False)]
         edge = case['edge'] or _cyc.DEFAULT_EDGE
         exp = _cyc.good_oracle(case['seg'], edge)
         fs = []
-        if bool(out['all']) != exp:
-            fs.append(Failure('is_good-wrong-verdict', 'seg=%s edge=%s verdict=%s expected=%s' % (case['seg'], edge, out['all'], exp)))
+        if exp is not None and bool(out['all']) != exp:
+            fs.append(Failure('is_good-wrong-verdict', 'seg=%s edge=%s verdict=%s expected=%s' % (case['seg'], edge, out['all'], exp),
+                              literal=False))
         if bool(out['all']) != all(out['checks']):
-            fs.append(Failure('is_good-verdict-not-conjunction', str(out)))
+            fs.append(Failure('is_good-verdict-not-conjunction', str(out), literal=False))
         return fs
 
     def tags(self, case, out):
-        return [] if isinstance(out, ImplError) else ['verdict=%d' % out['all'], 'checks=%s' % ''.join(map(str, out['checks']))]
+        if isinstance(out, ImplError):
+            return []
+        tie = _cyc.good_oracle(case['seg'], case['edge'] or _cyc.DEFAULT_EDGE) is None
+        return ['verdict=%d' % out['all'], 'checks=%s' % ''.join(map(str, out['checks']))] + (['not-judged:value-at-tolerance-bound'] if tie else [])
 
     def nontrivial(self, case, out):
         return len(case['seg']) > 1
@@ -277,18 +353,29 @@ class ContainerFlag(Stream):
 
     def corpus(self):
         return [{'phase': [0.1, 3.1, 6.2, 0.1, 3.1, 6.2, 0.1, 3.1, 6.2], 'edge': 0.05, 'step': None, 'cache': 1},
-                {'phase': [1.0, 3.1, 6.0, 1.0, 3.1, 6.0, 1.0, 3.1, 6.0], 'edge': 1.2, 'step': None, 'cache': 0}]
+                {'phase': [1.0, 3.1, 6.0, 1.0, 3.1, 6.0, 1.0, 3.1, 6.0], 'edge': 1.2, 'step': None, 'cache': 0},
+                # round 3, C13 patch 1: a container built with mode='augmented' judged its cycles by the augmented criteria
+                # (first cycle / a cycle after an irregular tail flagged bad although the wrap-delimited cycle meets all criteria)
+                {'phase': [0.1, 3.1, 6.2, 0.1, 3.1, 6.2, 0.1, 3.1, 6.2], 'edge': None, 'step': None, 'cache': 1, 'mode': 'augmented'},
+                {'phase': [0.1, 3.1, 6.2, 0.1, 3.1, 6.2, 0.1, 3.1, 6.2], 'edge': 0.3, 'step': None, 'cache': 0, 'mode': 'augmented'},
+                {'phase': [0.1, 3.1, 4.0, 3.9, 0.1, 3.1, 6.2, 0.1, 2.0, 6.2, 0.1], 'edge': None, 'step': None, 'cache': 1, 'mode': 'augmented',
+                 'timings': 1}]
 
     def generate(self, rng, tier):
+        def opts():
+            return {'cache': rng.choice([0, 1]), 'mode': rng.choice([None, None, 'cycle', 'augmented', 'augmented']),
+                    'timings': int(rng.random() < 0.15)}
         for i in range(600 if tier == 'thorough' else 80):
             n = rng.choice([9, 30, 120, 400])
             col = _cyc.synth_phase(rng, n, reversing=rng.random() < 0.5)
-            yield {'phase': col, 'edge': rng.choice([None, 0.05, 1.0, rng.uniform(0.01, np.pi / 2)]),
-                   'step': rng.choice([None, None, np.pi]), 'cache': rng.choice([0, 1])}
+            if rng.random() < 0.15:
+                col = _cyc.fast_phase(rng, rng.randint(2, 12))
+            yield dict({'phase': col, 'edge': rng.choice([None, 0.05, 1.0, rng.uniform(0.01, np.pi / 2)]),
+                        'step': rng.choice([None, None, np.pi])}, **opts())
         L = 6 if tier == 'thorough' else 5
         for seq in itertools.product(_cyc.ALPHABET, repeat=L):
             if rng.random() < (0.2 if tier == 'thorough' else 0.03):
-                yield {'phase': list(seq), 'edge': rng.choice(EDGES), 'step': None, 'cache': rng.choice([0, 1])}
+                yield dict({'phase': list(seq), 'edge': rng.choice(EDGES + [1.0]), 'step': None}, **opts())
 
     def impl(self, case):
         import emd
@@ -297,20 +384,35 @@ class ContainerFlag(Stream):
             kw['phase_edge'] = case['edge']
         if case['step'] is not None:
             kw['phase_step'] = case['step']
-        C = emd.cycles.Cycles(np.array(case['phase'], dtype=float), use_cache=bool(case['cache']), **kw)
-        return {'flags': [int(v) for v in C.metrics['is_good']], 'ncycles': int(C.ncycles)}
+        if not case['cache']:
+            kw['use_cache'] = False
+        if case.get('mode') is not None:
+            kw['mode'] = case['mode']
+        if case.get('timings'):
+            kw['compute_timings'] = True
+        C = emd.cycles.Cycles(np.array(case['phase'], dtype=float), **kw)
+        return {'flags': [int(v) for v in C.metrics['is_good']]}
 
     def ops(self, case, out):
-        step = case.get('step') or _cyc.DEFAULT_STEP
-        edge = case.get('edge') or _cyc.DEFAULT_EDGE
+        step, edge = _cyc.step_of(case), _cyc.edge_of(case)
         return [proto.op('CYGOOD', {'step': step, 'edge': edge, 'twopi': _cyc.TWO_PI, 'endlo': _cyc.TWO_PI - edge}, [case['phase']])]
 
     def _no_wrap(self, case):
-        return not _cyc.wraps_of(case['phase'], case.get('step') or _cyc.DEFAULT_STEP)
+        return not _cyc.wraps_of(case['phase'], _cyc.step_of(case))
+
+    def _tie(self, case):
+        step = _cyc.step_of(case)
+        if step != 0 and _cyc.tie_margin(case['phase'], step) < 1e-9:
+            return 'near-tie'
+        if _cyc.has_boundary_tie(case['phase'], step, _cyc.edge_of(case)):
+            return 'value-at-tolerance-bound'
+        return None
 
     def compare(self, case, out, results):
         if self._no_wrap(case):
             return 'skip:no-cycles (container undefined without a wrap)'
+        if self._tie(case):
+            return 'skip:' + self._tie(case)
         if isinstance(out, ImplError):
             return 'implementation raised %s (%s)' % (out['error'], out['msg'][-100:])
         r = results[0]
@@ -318,25 +420,40 @@ class ContainerFlag(Stream):
             return 'impl=%s model=%s' % (out['flags'][:40], r.raw[:200])
         return None
 
+    @guarded
     def holds(self, case, out):
-        if self._no_wrap(case):
+        if self._no_wrap(case) or self._tie(case) == 'near-tie':
             return []
         if isinstance(out, ImplError):
-            return [Failure('container-raises:' + out['error'], out['msg'])]
-        step = case.get('step') or _cyc.DEFAULT_STEP
-        edge = case.get('edge') or _cyc.DEFAULT_EDGE
-        exp = [int(_cyc.good_oracle(case['phase'][a:b], edge)) for a, b in _cyc.segments_of(case['phase'], step)]
-        if exp != out['flags']:
+            return [Failure('container-raises:' + out['error'], out['msg'], literal=out['error'] != 'Timeout')]
+        step, edge = _cyc.step_of(case), _cyc.edge_of(case)
+        exp = [_cyc.good_oracle(case['phase'][a:b], edge) for a, b in _cyc.segments_of(case['phase'], step)]
+        got = out['flags']
+        # one flag per wrap-delimited cycle; a cycle whose verdict hinges on a value exactly at a tolerance bound is not judged
+        if len(got) != len(exp) or any(e is not None and int(e) != g for e, g in zip(exp, got)):
             custom = case.get('edge') is not None
+            opts = 'use_cache=%s mode=%s compute_timings=%s' % (bool(case['cache']), case.get('mode'), bool(case.get('timings')))
             return [Failure('container-flag-disagrees' + (':custom-edge' if custom else ''),
-                            'edge=%s expected=%s got=%s' % (edge, exp[:20], out['flags'][:20]))]
+                            'Cycles(phase, phase_edge=%s, %s): criteria say %s, container flags %s' % (
+                                edge, opts, [None if e is None else int(e) for e in exp][:20], got[:20]))]
         return []
 
     def tags(self, case, out):
-        return ['edge=%s' % ('default' if case['edge'] is None else 'custom'), 'cache=%d' % case['cache']]
+        t = ['edge=%s' % ('default' if case['edge'] is None else 'custom'), 'cache=%d' % case['cache'],
+             'mode=%s' % case.get('mode'), 'timings=%d' % int(bool(case.get('timings')))]
+        if self._tie(case):
+            t.append('not-judged:' + self._tie(case))
+        return t
 
     def nontrivial(self, case, out):
         return not isinstance(out, ImplError) and len(set(out['flags'])) > 1
+
+    def shrink(self, case):
+        n = len(case['phase'])
+        for cut in (n // 2, n // 4, 1):
+            if 0 < cut < n:
+                yield dict(case, phase=case['phase'][cut:])
+                yield dict(case, phase=case['phase'][:n - cut])
 
 
 STREAMS = [GoodExhaustive(), GoodRandom(), IsGoodDirect(), ContainerFlag()]
